@@ -825,6 +825,9 @@ funcexpr(struct func *f, struct expr *e)
 			b[0] = mkblock("logic_right");
 			b[1] = mkblock("logic_join");
 			t = e->u.binary.l->type;
+			/* the phi must name predecessors of the join: not a block that ended in a no-return call */
+			if (f->end->jump.kind)
+				funclabel(f, mkblock("dead"));
 			if (e->op == TLOR) {
 				funcjnz(f, l, t, b[1], b[0]);
 				b[1]->phi.val[0] = mkintconst(1);
@@ -836,6 +839,8 @@ funcexpr(struct func *f, struct expr *e)
 			funclabel(f, b[0]);
 			r = funcexpr(f, e->u.binary.r);
 			b[1]->phi.val[1] = convert(f, &typebool, e->u.binary.r->type, r);
+			if (f->end->jump.kind)
+				funclabel(f, mkblock("dead"));
 			b[1]->phi.blk[1] = f->end;
 			funclabel(f, b[1]);
 			functemp(f, &b[1]->phi.res);
